@@ -8,6 +8,7 @@ import (
 	"io"
 	"math/rand/v2"
 	"net/http"
+	"strconv"
 	"strings"
 
 	"github.com/invopop/gobl"
@@ -400,6 +401,17 @@ func applyDocEdit(doc *JV, op Op) bool {
 		mk := func(d, p string) *JV {
 			return &JV{K: 'o', M: []JM{{"date", JStr(d)}, {"percent", JStr(p)}}}
 		}
+		if op.I%2 == 1 {
+			// instalments given as amounts only (three parts of what is payable, the last one
+			// taking the remainder): nothing may be derived from them that changes them later
+			if parts := splitAmount(doc.Get("totals").Get("payable").Str()); parts != nil {
+				mka := func(d, a string) *JV {
+					return &JV{K: 'o', M: []JM{{"date", JStr(d)}, {"amount", JStr(a)}}}
+				}
+				pay.Set("terms", &JV{K: 'o', M: []JM{{"key", JStr("due-date")}, {"due_dates", &JV{K: 'a', A: []*JV{mka("2031-01-31", parts[0]), mka("2031-02-28", parts[1]), mka("2031-03-31", parts[2])}}}}})
+				return true
+			}
+		}
 		pay.Set("terms", &JV{K: 'o', M: []JM{{"key", JStr("due-date")}, {"due_dates", &JV{K: 'a', A: []*JV{mk("2031-01-31", op.S2), mk("2031-02-28", op.S2), mk("2031-03-31", "33.34%")}}}}})
 		return true
 	case "extcode":
@@ -673,3 +685,33 @@ func errStr(err error) string {
 
 // GDiff is FirstDiff with array indices replaced by "*" (for stable signatures).
 func GDiff(a, b []byte) string { return GenericPtr(FirstDiff(a, b)) }
+
+// splitAmount divides a positive decimal amount into three parts of the same
+// precision that add up to it (the last takes the remainder); nil if it cannot.
+func splitAmount(a string) []string {
+	if a == "" || strings.HasPrefix(a, "-") {
+		return nil
+	}
+	exp := 0
+	digits := a
+	if i := strings.IndexByte(a, '.'); i >= 0 {
+		exp = len(a) - i - 1
+		digits = a[:i] + a[i+1:]
+	}
+	v, err := strconv.ParseInt(digits, 10, 64)
+	if err != nil || v < 3 {
+		return nil
+	}
+	f := func(n int64) string {
+		s := strconv.FormatInt(n, 10)
+		if exp == 0 {
+			return s
+		}
+		for len(s) <= exp {
+			s = "0" + s
+		}
+		return s[:len(s)-exp] + "." + s[len(s)-exp:]
+	}
+	p := v / 3
+	return []string{f(p), f(p), f(v - 2*p)}
+}
